@@ -333,7 +333,7 @@ def r4(ctx):
             continue
         a, ts, fs = switch_on_call(b, bi)
         # the removal(s) reachable from the true edge must be guarded by !s3
-        rem = [rb_ for rb_, rt_ in b.calls(r"Vec::<T, A>::remove$") if ts is not None and b.reachable(ts, rb_) and not (fs is not None and rb_ in b._reachable_from(fs, avoid={a}) and False)]
+        rem = [rb_ for rb_, rt_ in b.calls(r"Vec::<T, A>::(remove|drain|swap_remove|truncate|pop|retain\w*|split_off)$") if ts is not None and b.reachable(ts, rb_) and not (fs is not None and rb_ in b._reachable_from(fs, avoid={a}) and False)]
         mine = [rb_ for rb_ in rem if any((aa == a) for aa, ss in b.guards(rb_))]
         if not mine or not all(s3_false_guard(rb_) for rb_ in mine):
             yield VIOL("C09-R4", "canonicalize_uri_path/%s-s3-guard" % nm, "resolution of %r segments is not guarded by !s3 (S3 mode must preserve every segment)" % dot, where=b.span_of_block(bi))
